@@ -1,8 +1,9 @@
 """C14 rule set (see DESIGN.md section 5)."""
-from rules.search import r14_1, r02_1, r14_3, r09_1, r19_1, r01_5
+from rules.search import r14_1, r02_1, r14_3, r09_1, r19_1, r01_5, r05_6
+from rules.prefilter import r05_3
 
 LEVEL = 'other'
-RULES = [('R14.1', r14_1), ('R02.1', r02_1), ('R14.3', r14_3), ('R09.1', r09_1), ('R19.1', r19_1), ('R01.5', r01_5)]
+RULES = [('R14.1', r14_1), ('R02.1', r02_1), ('R14.3', r14_3), ('R09.1', r09_1), ('R19.1', r19_1), ('R01.5', r01_5), ('R05.6', r05_6), ('R05.3', r05_3)]
 EXPLANATION = """R14.1 AhoCorasick::is_match = try_find(input.earliest(true)).expect(..).is_some(); Input::earliest / set_earliest write only the
 earliest flag and get_earliest returns it. R02.1 in try_find_fwd earliest = match_kind().is_standard() || input.get_earliest() and each of
 the five calls of try_find_fwd_imp receives a flag consistent with the branch it sits on. R14.3 inside try_find_fwd_imp the flag is used
@@ -10,7 +11,8 @@ only as a branch condition; each such branch's true edge leads without any call 
 assigned from get_match (after the anchored filter, R09.1), and its false edge rejoins the normal flow: the earliest run is a prefix
 of the normal run, so it can only return a value the normal run held at that moment, and by cursor monotonicity (R19.1) the normal
 run's final match cannot end earlier. R14.4 the initial prefilter call is skipped only by the start-state early return. R01.5 mat
-discipline of the driver."""
+discipline of the driver. R05.6 / R05.3 prefilter use sites and candidate arithmetic (a prefilter that starts the walk before the
+span or skips a match makes is_match and find disagree with existence)."""
 NOT_DECIDED = """That what the normal run holds in mat is a genuine occurrence (C01/C02 remainder)."""
 CLAIM = """Static decision that is_match is the earliest search's is_some, that the earliest flag is derived and plumbed consistently, and
 that inside the driver the flag only adds side-effect-free early returns of an already accepted match. Earliest mode is not exercised by
